@@ -245,6 +245,9 @@ func c07Prop(rt *rapid.T, rec *ev.Recorder) {
 		err := S.process(tb)
 		inj.disarm()
 		if err == nil {
+			if d := diffDumps(pre, dumpTables(pathS, faultTables)); d == "" {
+				fatal(rt, "[%s] %s: ProcessBlock(%s) reported success although storage statement #%d of its transaction failed, and nothing of the block is recorded (the failure was swallowed, the transaction rolled back)", k, label, tb.brief(), kth)
+			}
 			if inj.count() < kth {
 				fatal(rt, "INCONCLUSIVE: harness: the transaction wrote %d rows, fewer than the %d of the clean run", inj.count(), total)
 			}
